@@ -163,6 +163,13 @@ def gen_parse(rng, n):
     for dl in range(0, 7):
         for doff in (6, 7):
             tcp(tcp_header(rng, doff) + bytes([1, 1, 30, 2 + dl]) + rb(rng, dl) + rb(rng, 6))
+    # the buffer ends exactly at the header end and the last option claims 1..3 bytes more (a read past the buffer if
+    # the bound check is off by one), with and without preceding data
+    for extra in (1, 2, 3, 8):
+        tcp(tcp_header(rng, 6) + bytes([1, 1, 30, 2 + extra]))
+        tcp(tcp_header(rng, 7) + bytes([30, 6 + extra]) + rb(rng, 4) + bytes([1, 1]))
+        tcp(tcp_header(rng, 7) + bytes([1, 1, 30, 4 + extra]) + rb(rng, 4))
+        tcp(tcp_header(rng, 15) + bytes([253, 40 + extra]) + rb(rng, 38))
     # option kind in the last header byte: the length octet is read from the payload (or from nothing)
     for tail in (b"", b"\x02", b"\x03\x00", b"\x00", b"\xff" * 3):
         tcp(tcp_header(rng, 6) + bytes([1, 1, 1, 34]) + tail)
